@@ -13,6 +13,10 @@ CLAUSE = ("daemon/proxyd.c: (RF-LOCK) every *modification* of the shared sliced-
           "for a client only in state FORWARD with a non-empty service set; (RF-CORR) a client's service mask is rebuilt from zero "
           "whenever it is re-accumulated; closing a client releases every buffer still queued for it (a loop, not a single "
           "release) under queue_mutex.")
+CLAUSE = CLAUSE + (" A forwarding client's queue cursor is drained before a service update that can stop acquisition (and free "
+                   "every queued buffer); in the proxy client library a transient RPC state (WAIT_*) is left again - to CAPTURING "
+                   "or, through the failure path, to ERROR - on every path of the function that entered it, whatever the "
+                   "daemon's reply (a client left in a WAIT state refuses every later frame).")
 NOT_DECIDED = ("exactly-once / in-order delivery, timing, device open/close sequencing, that a stalled client loses only its own "
                "frames (schedule-dependent behaviour); the main loop's unlocked *reads* of its clients' cursors and queued frames "
                "(vbi_proxyd_send_sliced, _handle_client_sockets, _get_fd_set) are a formal data race with the acquisition thread's "
@@ -207,6 +211,11 @@ def run(ctx, run):
     _forward(ctx, run, P.need("vbi_proxyd_forward_data", UNIT))
     _update_services(ctx, run, P.need("vbi_proxyd_update_services", UNIT))
     _close(ctx, run, P.need("vbi_proxyd_close", UNIT))
+    # a service update of a forwarding client may stop acquisition, which frees the whole queue:
+    # the client's cursor must have been drained before (shared with C19)
+    from . import C19
+    C19._drain_before_update(ctx, run, P.need("vbi_proxyd_take_message", UNIT))
+    _client_transient_states(ctx, run)
 
 
 def _stop_before_free(ctx, run, f):
@@ -346,3 +355,81 @@ def _close(ctx, run, f):
             run.violation("RF-PAIR", key, "only one buffer is released when a client closes: the other frames queued for it keep a "
                           "reference nobody will drop, the queue fills up and capturing stops for every client", ex.loc(f, i),
                           witness={"function": f.name})
+
+
+def _client_transient_states(ctx, run):
+    P = ctx.prog
+    waits = {v for k, v in P.enum_consts.items() if k.startswith("CLNT_STATE_WAIT")}
+    if not waits:
+        raise AnalysisBroken("CLNT_STATE_WAIT_* not found")
+    REC, FLD = "vbi_proxy_client", "state"
+
+    def stores_state(f, i):
+        for lhs, var, op, rhs in flow.stores(f, i):
+            if lhs is not None:
+                l = f.exprs[ex.skip(f, lhs)]
+                if l["k"] == "mem" and l.get("in") == REC and l["member"] == FLD:
+                    return True
+        e = f.exprs[i]
+        if e["k"] == "call" and e.get("callee"):
+            t = P.func_for(f, e["callee"])
+            if t is not None and ("fld", REC, FLD) in ctx.sums.writes.get(t.key, set()):
+                # only a callee that *always* leaves a settled state counts: the close / failure helpers
+                return e["callee"] in ("proxy_client_close", "proxy_client_stop_acq")
+        return False
+    n = 0
+    for f in P.funcs:
+        if f.file != "src/proxy-client.c":
+            continue
+        for bid, i in flow.all_events(f):
+            e = f.exprs[i]
+            if e["k"] != "asg" or e["op"] != "=":
+                continue
+            l = f.exprs[ex.skip(f, e["c"][0])]
+            if not (l["k"] == "mem" and l.get("in") == REC and l["member"] == FLD):
+                continue
+            c = ex.const(f, e["c"][1])
+            if c not in waits:
+                continue
+            n += 1
+            run.touch(f)
+            ok = _settles_before_success(f, i, stores_state)
+            key = "RF-CORR:%s:transient-state-left:%s" % (f.name, c)
+            if ok:
+                run.holds("RF-CORR", key, "after `%s` every path to the exit assigns the state again (or closes the connection)"
+                          % ex.pretty(f, i), ex.loc(f, i))
+            else:
+                run.violation("RF-CORR", key, "a path from `%s` returns with the client still in that transient state: every later "
+                              "vbi_capture_pull/read on this client fails although the daemon keeps forwarding its frames"
+                              % ex.pretty(f, i), ex.loc(f, i), witness={"function": f.name})
+    run.floor("transient client states entered", n, 3)
+
+
+def _settles_before_success(f, from_eid, pred):
+    """Every path from just after `from_eid` to a return that does not report failure (a literal
+    FALSE / 0 - the static helpers' callers close the connection on failure) executes an event
+    satisfying pred."""
+    bid0, n0 = flow.elem_pos(f)[from_eid]
+    for i in f.blocks[bid0].elems[n0 + 1:]:
+        if flow.is_event(f, i) and pred(f, i):
+            return True
+    hit = {b for b, i in flow.all_events(f) if pred(f, i)}
+    seen, stack = set(), [s for s, _ in f.edges(bid0)]
+    while stack:
+        b = stack.pop()
+        if b in seen or b in hit:
+            continue
+        seen.add(b)
+        for i in flow.events(f, b):
+            e = f.exprs[i]
+            if e["k"] == "ret":
+                v = ex.const(f, e["c"][0]) if e.get("c") else None
+                if v != 0:
+                    return False
+        if b == f.exit:
+            continue
+        nxt = [s for s, _ in f.edges(b)]
+        if f.exit in nxt and not any(f.exprs[i]["k"] == "ret" for i in flow.events(f, b)):
+            return False            # falls off the end of a void function
+        stack.extend(s for s in nxt if s != f.exit)
+    return True
